@@ -81,7 +81,7 @@ CLAIMED['C07'] = dict(
          'or exactly one correctly signed event of the documented type carrying contact and device key), argument rules with free seed/key bytes, and '
          'sequences in which every step is a free choice among the operations on two contacts, compared step by step with the reference lifecycle '
          '(state, seed, metadata) and with a fresh index replaying the same log.',
-    note=TA + 'sequence length 2 (quick) / 3 (thorough); BaseStore.AddOperation = append + real UpdateIndex (contract); replication of the log itself is not modelled.',
+    note=TA + 'sequences of length 2 on two contacts with free metadata and of length 3 on one contact (lean: metadata absent or fixed, refused intermediate steps pruned) in the quick tier, length 4 lean in the thorough tier; BaseStore.AddOperation = append + real UpdateIndex (contract); replication of the log itself is not modelled.',
     design='6/C07, appendix A')
 
 CLAIMED['C04'] = dict(
@@ -113,7 +113,7 @@ CLAIMED['C09'] = dict(
     text='Schedule-symbolic BMC of concurrent SealEnvelope calls on one secret store (every datastore operation and every messageMutex operation a visible step): '
          'stuck states, per-goroutine assertions and final-state assertions over the header counters of the returned envelopes (pairwise distinct, gap-free, increasing); '
          'the datastore invariant used to avoid forking on reads (chain-key entry present and well-formed) is itself a state assertion of the BMC.',
-    note=TB + 'Bounds: 2 senders x 1 message on one and on two groups (quick); 2x2 and 3x1 (thorough). Outside: receivers running concurrently, real parallel hardware below SC.',
+    note=TB + 'Bounds: BMC 2 senders x 1 message on one and two groups (thorough tier only); symbolic scheduler 2x1 on one and two groups, first use of a group (quick), 2x2 and 3x1 (thorough). Outside: receivers running concurrently, real parallel hardware below SC.',
     design='4, 6/C09', technique='bounded model checking with symbolic schedules over go/ssa-derived operation sequences + SMT (z3)')
 CLAIMED['C10'] = dict(
     text='Symbolic execution of receive / send / key-creation workloads with the crash point a free integer kappa masking every later datastore or keystore mutation '
